@@ -14,4 +14,4 @@ CONSTANTS
   Ops = {"Get", "Set", "Delete", "DeletePrefix", "Clear", "Close", "Batched", "Iterate", "BSet", "BDelete", "Cancel", "Commit"}
 VIEW View
 INVARIANTS TypeOK ClosedOK NotClosedOK GetOK HasOK SetOK IterOK StOK
-PROPERTIES Isolation ReadOnly DeleteExact SetDelete BatchLastOp CancelNothing IterSnapshot
+PROPERTIES Isolation ReadOnly DeleteExact SetDelete BatchLastOp CancelNothing IterMutSnapshot
